@@ -63,7 +63,7 @@ Proof. unfold emeas, eflag. cbn [ecount]. destruct e, rest; lia. Qed.
 Lemma read_until_e_meas : forall s acc, s <> [] -> emeas (snd (read_until_e s acc)) < emeas s.
 Proof.
   induction s as [|e rest IH]; intros acc Hne; [congruence|].
-  destruct e as [c| |]; cbn [read_until_e].
+  destruct e as [c| | |]; cbn [read_until_e].
   - destruct (split_nl c) as [[p r]|] eqn:E.
     + cbn [snd]. unfold emeas, eflag. cbn [ecount]. rewrite (split_nl_some_count c p r E). lia.
     + destruct rest as [|e' rest'].
@@ -75,6 +75,7 @@ Proof.
     + cbn [read_until_e snd]. unfold emeas, eflag. cbn [ecount]. lia.
     + specialize (IH acc). pose proof (emeas_tail_le EIntr (e' :: rest')).
       assert (e' :: rest' <> []) as N by discriminate. specialize (IH N). lia.
+  - cbn [snd]. unfold emeas, eflag. cbn [ecount]. destruct rest; lia.
 Qed.
 
 (* what one read_line call does: a VALID (possibly empty) string is appended, the measure
